@@ -7,7 +7,7 @@ Tr == ndJsonDeserialize(IOEnv.TRACE)
 
 (* thread life-cycle and bookkeeping events that algorithm-level trace      *)
 (* specifications skip (they are consumed by Sync/HB monitors)              *)
-LifeKinds == {"spawn", "start", "end", "join", "done", "enabled"}
+LifeKinds == {"spawn", "start", "end", "join", "done", "enabled", "pu"}   \* pu: bookkeeping step after a lock release
 (* events that end an execution abnormally                                  *)
 EndKinds  == {"deadlock", "budget", "diverged", "terminate", "hang", "crash"}
 
